@@ -1,8 +1,8 @@
 package main
 
 import (
-	"go/constant"
 	"fmt"
+	"go/constant"
 	"go/token"
 	"go/types"
 	"os"
@@ -20,43 +20,43 @@ type UFunc struct {
 }
 
 type Engine struct {
-	repo        string
-	prog        *ssa.Program
-	pkgs        []*ssa.Package
-	pkgByName   map[string]*ssa.Package
-	allFns      map[*ssa.Function]bool
-	fnByKey     map[string][]*ssa.Function
-	contracts   *ContractSet
-	lib         map[string]libModel
-	libEffects  map[string][]string
-	tags        map[string]int
-	tagTypes    map[int]types.Type
-	epochCtr    int
-	globalDecls []string
-	ufuncs      map[string]UFunc
-	maxVC       int
-	fnIDs       map[*ssa.Function]int
-	loopCache   map[*ssa.Function]map[*ssa.BasicBlock]map[*ssa.BasicBlock]bool
-	implCache   map[string][]types.Type
-	specErrs    []string
+	repo         string
+	prog         *ssa.Program
+	pkgs         []*ssa.Package
+	pkgByName    map[string]*ssa.Package
+	allFns       map[*ssa.Function]bool
+	fnByKey      map[string][]*ssa.Function
+	contracts    *ContractSet
+	lib          map[string]libModel
+	libEffects   map[string][]string
+	tags         map[string]int
+	tagTypes     map[int]types.Type
+	epochCtr     int
+	globalDecls  []string
+	ufuncs       map[string]UFunc
+	maxVC        int
+	fnIDs        map[*ssa.Function]int
+	loopCache    map[*ssa.Function]map[*ssa.BasicBlock]map[*ssa.BasicBlock]bool
+	implCache    map[string][]types.Type
+	specErrs     []string
 	sentinelList []*ssa.Global
-	keyInfo     map[string]keyInfo
-	immPrefixes []string
-	immProblems []string
-	immChecked  bool
-	writerMap   map[string]map[*types.Package]bool
-	reGlobalMap map[*ssa.Global]string
-	refKeys1    map[string]bool
-	refKeys2    map[string]bool
-	privCache   map[*ssa.Function]map[*ssa.Alloc]bool
-	typeInvs    map[string]*typeInvInfo
-	tiProblems  []string
-	hasWait     map[*ssa.Function]bool
-	extTypeInvs []string
-	immAllowed  map[*ssa.Function]bool
-	reachCache  map[string]bool
-	cbFree      map[*types.Package]bool
-	loadErrs    []string
+	keyInfo      map[string]keyInfo
+	immPrefixes  []string
+	immProblems  []string
+	immChecked   bool
+	writerMap    map[string]map[*types.Package]bool
+	reGlobalMap  map[*ssa.Global]string
+	refKeys1     map[string]bool
+	refKeys2     map[string]bool
+	privCache    map[*ssa.Function]map[*ssa.Alloc]bool
+	typeInvs     map[string]*typeInvInfo
+	tiProblems   []string
+	hasWait      map[*ssa.Function]bool
+	extTypeInvs  []string
+	immAllowed   map[*ssa.Function]bool
+	reachCache   map[string]bool
+	cbFree       map[*types.Package]bool
+	loadErrs     []string
 }
 
 func loadEngine(repo string) (*Engine, error) {
